@@ -60,7 +60,9 @@ def nontrivial(c):
 
 def distribution(cases):
     d = {"ok": 0, "err": 0, "other": 0, "nondet": 0, "output_unparseable": 0, "variant": VARIANT,
-         "custom_placeholder": 0, "training_empty": 0, "training_is_target": 0, "placeholder_occurrences": 0, "spec": {}}
+         "custom_placeholder": 0, "training_empty": 0, "training_is_target": 0, "placeholder_occurrences": 0,
+         "training_tree": 0, "training_tree_files": {}, "training_tree_err": 0, "training_tree_ok_with_placeholder": 0,
+         "spec": {}}
     for c in cases:
         f = c.input.split(" ")
         if len(f) != 4:
@@ -72,6 +74,14 @@ def distribution(cases):
         if f[2] == f[3]:
             d["training_is_target"] += 1
         d["placeholder_occurrences"] += f[3].count(f[1])
+        if f[2].startswith("tree:"):
+            d["training_tree"] += 1
+            n = str(f[2].count("="))
+            d["training_tree_files"][n] = d["training_tree_files"].get(n, 0) + 1
+            if c.observed.startswith("ERR"):
+                d["training_tree_err"] += 1
+            elif c.observed.startswith("OK ") and f[1] in f[3]:
+                d["training_tree_ok_with_placeholder"] += 1
         if c.observed.startswith("OK "):
             d["ok"] += 1
             if c.observed.endswith("nondet"):
